@@ -504,7 +504,14 @@ class G:
         lines = ["case %s" % cid, "new 0 %s %d cons %d %s" % (kind, n, len(cs), " ".join(cs)),
                  r.choice(["qry 0 is_empty", "op 0 closure", "op 0 reduction", "op 0 obs_minimized_constraints", "qry 0 maximize %d 0 %s" % (n, " ".join(["1"] * n)), "qry 0 is_bounded"])]
         dimop = r.choice(["expand_space_dimension", "expand_space_dimension", "fold_space_dimensions", "map_space_dimensions", "remove_space_dimensions", "concatenate_assign", "add_space_dimensions_and_project"])
-        if dimop == "concatenate_assign":
+        if r.random() < 0.3:
+            # instead of a dimension change: turn one of the inequalities into an equality (or add a new constraint)
+            # on the object left closed / reduced by the observer
+            dimop = "add"
+            c0 = r.choice(cs)
+            lines.append("op 0 %s %s" % (r.choice(["add_constraint", "add_constraints 1", "refine_with_constraint"]),
+                                         ("= " + c0.split(" ", 1)[1]) if r.random() < 0.7 else self.con(kind, n)))
+        elif dimop == "concatenate_assign":
             lines.append("copy 3 0"); objs[3] = (kind, n)
             lines.append("op 0 concatenate_assign 3"); objs[0] = (kind, 2 * n)
         else:
